@@ -453,6 +453,8 @@ func runC07(cx *Ctx, r *Report) {
 	// an unanswered request is refunded at expiry only while its batch is not declared
 	// completed: who may write BatchState := COMPLETED (rule shared with C08)
 	cx.batchCompletedWriters(r, per)
+	cx.scanPrefixClosedRule(r, []string{"service"}, "scan-prefix-closed")
+	cx.keyEncodingUniformRule(r, []string{"service"}, "key-encoding-uniform")
 	r.requireCount("issue-after-charge", 1)
 	r.requireCount("deposit-double-entry", 4)
 	r.requireCount("respond-split", 2)
